@@ -16,6 +16,7 @@ from __future__ import annotations
 import contextlib
 import io
 import itertools
+import logging
 import json
 import os
 import random
@@ -47,6 +48,9 @@ def check(name, props, funcs=()):
         CHECKS[name] = inst
         return cls
     return deco
+
+
+logging.disable(logging.WARNING)  # pyttb's own advisory log lines are not check output
 
 
 def import_pyttb():
